@@ -23,7 +23,8 @@ impl Model {
         // ---- C05: every recompute was of a node needed at the start or at the end
         let runs = self.run_order.clone();
         for (h, pos) in runs.iter() {
-            if !self.cone_start.contains(h) && !self.necessary.contains(h) {
+            // the property speaks of node *functions*: only nodes that carry a user function count
+            if !self.cone_start.contains(h) && !self.necessary.contains(h) && crate::model_step::instrumented(&self.nodes[*h].rk) {
                 if self.transient.contains(h) {
                     viol!(self, *pos, "C05", "ran-outside-cones-transient", "node {} ({}) was computed although no live observer needs it at the start or at the end of this stabilise (it was needed only in between)", h, crate::model_step::kind_name(&self.nodes[*h].rk));
                 } else {
@@ -99,7 +100,7 @@ impl Model {
             if self.nodes[h].invalid {
                 continue;
             }
-            let cached = self.nodes[h].value;
+            let cached = self.val(h);
             if cached.is_none() {
                 continue; // reported as missing-run above
             }
@@ -137,7 +138,7 @@ impl Model {
                 if s.prev != Prev::Invalidated {
                     self.expected_notifs.insert(sid, Upd::Invalidated);
                 }
-            } else if let Some(v) = n.value {
+            } else if let Some(v) = self.val(o.hid) {
                 if s.prev == Prev::Never {
                     self.expected_notifs.insert(sid, Upd::Init(v));
                 } else if n.last_changed == Some(round) {
@@ -247,7 +248,7 @@ impl Model {
                 if n.invalid {
                     Err(ObsErr::ObservingInvalid)
                 } else {
-                    n.value.ok_or(ObsErr::ObservingInvalid)
+                    self.val(o.hid).ok_or(ObsErr::ObservingInvalid)
                 }
             }
         }
